@@ -174,7 +174,8 @@ CHECKS = {
              "directions through one open circuit (also through a neighbour circuit next to the open main circuit and through a neighbour registered without a "
              "region handle, alone and next to the main circuit), with independently parsed SOCKS and LLUDP headers; plus repeated-garbage "
              "histories for every garbage kind (each banned name), socket-level faults (protocol.error_received with 4 errnos; EMSGSIZE from a real oversize "
-             "inbound datagram) interleaved with valid traffic, and flood scenarios up to 300 distinct far addresses / source hosts / truncated datagrams before "
+             "inbound datagram) interleaved with valid traffic, associations x teardown at the SOCKS control seam (both associations created by the real SOCKS5 control handler on in-memory streams; every "
+             "sequence <= 4 of traffic on either viewer and either control connection ending: ending X tears down X only), and flood scenarios up to 300 distinct far addresses / source hosts / truncated datagrams before "
              "valid traffic.",
         note="One message shape per event class in the BFS (all 481 templates only in the single-circuit sweep); exceptions escaping datagram_received are swallowed as "
              "asyncio's datagram transport does; the ban list is an inbound rule; an ACK flag with an empty ack list compares equal to no ACK flag; dead circuits carry no judged traffic (only the kill and re-open datagrams are asserted); "
